@@ -25,7 +25,9 @@ for pid in ids:
         "engine": "rocq-proof+correspondence",
         "level_claimed": {"category": "proof", "text": M["text"], "design_ref": "DESIGN.md section 5, " + pid},
         "level_note": M["note"],
-        "technique": M.get("technique", "machine-checked proof in Rocq/Coq 8.16 of model-vs-specification theorems + differential correspondence check of the model (vm_compute) against the implementation built from /repo"),
+        "technique": M.get("technique", "machine-checked proof in Rocq/Coq 8.16 of model-vs-specification theorems"
+                           + (" + definitions regenerated from the current source on every run by a fail-closed translator (coq/Gen/%s_Tables.v) with theorems tying them to the model" % ("C01" if pid == "C02" else pid) if hasattr(P, "gen_tables") else "")
+                           + " + differential correspondence check of the model (vm_compute) against the implementation built from /repo"),
     })
 man = {
     "version": 1,
